@@ -35,8 +35,10 @@ MEM_RULE = ('one run = one seeded plan (<=60 ops) over 1-4 sim-backend sandboxes
             'hostile guest writes of arbitrary 32-bit patterns into cells, hostile function results and callback arguments, assign_raw_pointer / '
             'UNSAFE_accept_pointer over 14 address classes, registrations and by-name invocations across incarnations; '
             'non-trivial = at least one fault fired or reach probe hit; distinct = distinct FNV-1a hashes of the event log')
-MEM_WORLD = dict(world='mem', variants=['plain'], quick=dict(count=64000, time_limit=60), thorough=dict(count=6000000, time_limit=900))
-MEM_ASSUME = ['the sim backend maps every 32-bit representation into its region (offset modulo size), as the 4 GiB reservations of real plug-ins do; '
+MEM_WORLD = dict(world='mem', variants=['plain', 'p64'], quick=dict(count=128000, time_limit=60, variant_share={'plain': 0.6, 'p64': 0.4}),
+                 thorough=dict(count=8000000, time_limit=900, variant_share={'plain': 0.6, 'p64': 0.4}))
+MEM_ASSUME = ['two builds: 32-bit pointer representation (plain) and 64-bit representation with 32-bit long (p64), so that conversions that depend on the representation width are exercised both ways',
+              'the sim backend maps every 32-bit representation into its region (offset modulo size), as the 4 GiB reservations of real plug-ins do; '
               'offset 0 shares its representation with null and is exempt from round-trip checks',
               'oracle region table is the simulator\'s own (sim::g_regions), never the backend predicates',
               '&*p and &p[n] on registered-struct pointers do not compile with the unchanged headers (const-correctness of the generated operator&) and are not generated']
